@@ -41,6 +41,7 @@ F_NOT = 'not-rendered-as-python-not'
 F_ABS = 'abs-rendered-as-python-abs'
 F_CROSS = 'cross-join-as-full-outer-join'
 F_REFCTX = 'reference-reused-across-query-contexts'
+F_SETFEAT = 'set-features-doubled'
 F_CACHE = 'result-cache-keyed-by-sql-text'
 F_LAZY = 'lazy-backend-registered-once-per-process'
 CRASH_FINDING = {'merge': (F_MERGE, 'AttributeError'), 'nonpredicate': (F_NONPRED, 'AttributeError'),
@@ -151,13 +152,23 @@ def reference_contexts(ast):
     return count
 
 
+def set_reference_selected_whole(ast):
+    """Some query without a selection has a reference of a set operation among its origins."""
+    for src, _ in relgen._sources(ast):  # pylint: disable=protected-access
+        if src['t'] == 'query' and not src['sel']:
+            if any(leaf['t'] == 'ref' and leaf['l']['t'] == 'set' for leaf in relgen._leaves(src['l'])):  # pylint: disable=protected-access
+                return True
+    return False
+
+
 def classify(ast, res, crash, asis_ok):
     """Finding id whose input class the failing observation belongs to, or None (-> VIOLATION).
     The classes are predicates on the statement (plus the kind of outcome they produce):
       parse exception  <- the as-is factorisation model predicts that exception class for this statement, or the
                           statement uses an operator the alchemy parser maps to a python builtin (not / abs)
       exec exception   <- one reference is an origin of two query contexts of the statement
-      wrong rows       <- the rows are what the as-is rendering (cross join as FULL OUTER JOIN ON true, Not as python
+      wrong rows       <- a query selects "everything" of a reference of a set operation (Set.features lists both
+                          operands' features), or the rows are what the as-is rendering (cross join as FULL OUTER JOIN ON true, Not as python
                           not) denotes and the statement contains a cross join / a Not."""
     ops = relgen.ops_in(ast)
     if res.startswith('parse:'):
@@ -173,6 +184,8 @@ def classify(ast, res, crash, asis_ok):
         if any(n > 1 for n in reference_contexts(ast).values()):
             return F_REFCTX
         return None
+    if set_reference_selected_whole(ast):
+        return F_SETFEAT
     if asis_ok:
         if 'not' in ops:
             return F_NOT
@@ -289,11 +302,8 @@ def parser_level(chk):
 
 
 def describe(ast):
-    """Short DSL-like text of a statement (repr of the real object when it can be built)."""
-    try:
-        return repr(g.build(ast))[:260]
-    except Exception:  # pylint: disable=broad-except
-        return g.canon(ast)[:260]
+    """Short DSL-like text of a statement (repr() of the real object hides clauses: Equal.__bool__)."""
+    return relgen.show(ast)[:300]
 
 
 # ------------------------------------------------------------------------------------------------ reader level
